@@ -68,12 +68,12 @@ def validateArgs (vars : List (Name × QTy)) (args : List (Name × Value)) : R (
 
 /-- `exec` and its variants whose implementation side runs the same query under a wrapper adapter
 (contract checking, trace replay, …): the model's answer is the same `Interp` rows. -/
-def execLike (schema data ir args : Sexp) : Option String := do
+def execLike (schema data ir args : Sexp) (useLimits : Bool := true) : Option String := do
     let d ← parseData schema data
     let q ← parseIR ir
     let a ← parseArgs args
     match validateArgs q.variables a with
-    | .ok none => pure (renderR (interpret (Env.ofData d a) q))
+    | .ok none => pure (renderR (interpret { Env.ofData d a with useLimits := useLimits } q))
     | .ok (some errs) => pure ("(err args " ++ " ".intercalate errs ++ ")")
     | .panic _ => pure "panic"
     | .fuel => pure "out-of-fuel"
@@ -81,6 +81,7 @@ def execLike (schema data ir args : Sexp) : Option String := do
 def handleEngine : Handler
   | "contract-exec", [schema, data, _text, ir, args] => execLike schema data ir args
   | "replay-exec", [schema, data, _text, ir, args] => execLike schema data ir args
+  | "spec-nolimits", [schema, data, _text, ir, args] => execLike schema data ir args false
   | "det", _ => some "ok"
   | "exec", [schema, data, _text, ir, args] => do
     let d ← parseData schema data
